@@ -367,6 +367,63 @@ def LayersAreBfsLevels (g : Graph) (rev : Bool) (perm layers : List Nat) : Prop 
     layers = 0 :: offsets 0 (comps.flatMap fun c =>
       if rev then c.reverse.map List.length else c.map List.length) ++ [g.nDom]
 
+/-! ### the ordering itself (beyond "bijection + BFS levels") -/
+
+/-- discovery order of the next level: the not yet numbered out-neighbours of `level`, in the order
+(parent position in `level`, then position in the parent's adjacency list), each at its first occurrence -/
+def discovered (g : Graph) (seen level : List Nat) : List Nat :=
+  Graph.dedup ((level.flatMap g.row).filter fun k => !seen.contains k)
+
+/-- every level is *exactly* `sortLevel` (stable degree sort, or nothing) of the discovery order -/
+def IsLevelChainExact (g : Graph) (st : SortType) : List Nat → List Nat → List (List Nat) → Prop
+  | seen, lv, [] => discovered g seen lv = []
+  | seen, lv, nx :: rest =>
+    nx ≠ [] ∧ nx = sortLevel g st (discovered g seen lv) ∧ IsLevelChainExact g st (seen ++ nx) nx rest
+
+/-- what the three `RootType`s document: first not yet numbered node / not yet numbered node of minimum
+(maximum) degree, the one with the smallest index among equals -/
+def IsDocumentedRoot (g : Graph) (rt : RootType) (seen : List Nat) (root : Nat) : Prop :=
+  root < g.nDom ∧ root ∉ seen ∧
+  match rt with
+  | .standard => ∀ j, j < root → j ∈ seen
+  | .minDeg => ∀ j, j < g.nDom → j ∉ seen →
+      (g.degree root < g.degree j ∨ (g.degree root = g.degree j ∧ root ≤ j))
+  | .maxDeg => ∀ j, j < g.nDom → j ∉ seen →
+      (g.degree j < g.degree root ∨ (g.degree j = g.degree root ∧ root ≤ j))
+
+/-- components in the order they are processed: each starts at the documented root among the nodes that are
+left, and is numbered level by level -/
+def AreCmComponents (g : Graph) (rt : RootType) (st : SortType) : List Nat → List (List (List Nat)) → Prop
+  | _, [] => True
+  | seen, c :: cs =>
+    (∃ root rest, c = [root] :: rest ∧ IsDocumentedRoot g rt seen root ∧
+      IsLevelChainExact g st (seen ++ [root]) [root] rest) ∧
+    AreCmComponents g rt st (seen ++ c.flatten) cs
+
+/-- complete specification of `CuthillMcKee::compute`: the numbering is the concatenation of the components
+(each one reversed as a whole when `reverse` is set), the layers are the level end offsets -/
+def IsCmOrdering (g : Graph) (rev : Bool) (rt : RootType) (st : SortType) (perm layers : List Nat) : Prop :=
+  ∃ comps : List (List (List Nat)), AreCmComponents g rt st [] comps ∧
+    perm.length = g.nDom ∧
+    perm = comps.flatMap (fun c => if rev then c.flatten.reverse else c.flatten) ∧
+    layers = 0 :: offsets 0 (comps.flatMap fun c =>
+      if rev then c.reverse.map List.length else c.map List.length) ++ [g.nDom]
+
 end CM
+
+/-! ## permutations of blocked data -/
+namespace Perm
+
+/-- an array of `bs`-blocks (`Tiny::Vector<T, bs>`, `IndexTuple<bs>`) seen as a list of lists; `n` blocks -/
+def chunk (bs : Nat) : Nat → List Nat → List (List Nat)
+  | 0, _ => []
+  | n + 1, x => x.take bs :: chunk bs n (x.drop bs)
+
+/-- `IndexSet::permute(perm, inv_perm_face)`: the tuples are permuted by the forward permutation, then every index
+is mapped through the inverse face permutation -/
+def indexSetPermute (p q : List Nat) (tuples : List (List Nat)) : List (List Nat) :=
+  (applyPerm p tuples).map fun t => t.map fun k => q.getD k 0
+
+end Perm
 
 end FeatModel.Adj
